@@ -9,6 +9,7 @@ Decided clauses:
        crypto_sign_ed25519_open zeroes its outputs on failure (C02 R2.4/R2.5 instances).
   R6.2 key generation from a seed and signing (plain and pre-hashed) cannot reach a random
        source, an entropy/time external, or any store to / load from process-global mutable state.
+  R6.5 the Ed25519 -> X25519 key conversions read their input completely before the first write through the output.
   R6.4 combined-mode crypto_sign moves the message to sm + 64 first and hands *that copy* to the detached signer, on every path:
        "every signature so produced verifies" also when the caller's m lies inside sm (the signer hashes the message twice and
        writes the signature halves into sm[0..64) in between).
@@ -140,6 +141,11 @@ def run(ctx, chk):
     # R, A, S into sm[0..64) in between): shared with C13 R13.1
     from . import c13
     c13.sign_move_rule(prog, chk, "R6.4")
+    # ---- R6.5 the Ed25519 -> X25519 key conversions consume their input before they touch the output (C05's R5.3 engine): a
+    # conversion that clears or scribbles on the output first returns garbage (or a spurious rejection) when converting in place
+    from . import c05
+    c05.inplace_rule(prog, chk, rule="R6.5", names=("crypto_sign_ed25519_pk_to_curve25519", "crypto_sign_ed25519_sk_to_curve25519"),
+                     out=0, inputs=(1,), what="the Ed25519 key", floor=2)
     bad = sorted(x for x in ext if x in ENTROPY_EXT or x.startswith("randombytes"))
     rb = [k for k in reach if (k if isinstance(k, str) else k[1]).startswith("randombytes")]
     chk.ob("R6.2", fns[0], "signing and seeded key generation reach no random / entropy / time source",
